@@ -9,6 +9,7 @@ import (
 	"runtime/debug"
 
 	"github.com/cnotch/ipchub/av/codec"
+	"github.com/cnotch/ipchub/utils/verifhook"
 	"github.com/cnotch/queue"
 	"github.com/cnotch/xlog"
 )
@@ -91,7 +92,9 @@ func (muxer *Muxer) process(vp, ap Packetizer) {
 	}()
 
 	for !muxer.closed {
+		verifhook.Point("worker.pop", 3)
 		f := muxer.recvQueue.Pop()
+		verifhook.Point("worker.got", 3)
 		if f == nil {
 			if !muxer.closed {
 				muxer.logger.Warn("tsmuxer: receive nil frame")
